@@ -7,7 +7,13 @@ use std::collections::HashMap;
 pub enum TypeKind { Plain, Enum, Model, Mor }
 
 #[derive(Clone, Debug)]
-pub struct TypeDecl { pub name: String, pub kind: TypeKind }
+pub struct TypeDecl {
+    pub name: String,
+    pub kind: TypeKind,
+    /// member types: the model type they belong to and the membership predicate
+    pub member_of: Option<usize>,
+    pub membership: Option<usize>,
+}
 
 #[derive(Clone, Debug)]
 pub struct RelDecl {
@@ -20,7 +26,12 @@ pub struct RelDecl {
     pub can_define: bool,
     pub mor_sig: Option<String>,
     pub src_name: Option<String>,
+    /// the morphism-application function `<type>_mor_app(f, x)` of a member type
+    pub mor_app: bool,
 }
+
+#[derive(Clone, Debug, PartialEq, Eq)]
+pub enum NaturalParent { None, Arg0 { membership: usize }, CodOfArg0 { cod: usize, membership: usize }, Unsupported }
 
 #[derive(Clone, Debug)]
 pub enum Term { Var(usize), App(usize, Vec<Term>) }
@@ -74,7 +85,9 @@ impl Theory {
         let types: Vec<TypeDecl> = v["types"].as_array().unwrap().iter().map(|t| TypeDecl {
             name: t["name"].as_str().unwrap().to_string(),
             kind: match t["kind"].as_str().unwrap() { "plain" => TypeKind::Plain, "enum" => TypeKind::Enum, "model" => TypeKind::Model, _ => TypeKind::Mor },
+            member_of: None, membership: None,
         }).collect();
+        let mut types = types;
         let tix: HashMap<String, usize> = types.iter().enumerate().map(|(i, t)| (t.name.clone(), i)).collect();
         let rels: Vec<RelDecl> = v["rels"].as_array().unwrap().iter().map(|r| RelDecl {
             name: r["name"].as_str().unwrap().to_string(),
@@ -85,8 +98,15 @@ impl Theory {
             can_define: r["can_define"].as_bool().unwrap_or(false),
             mor_sig: r.get("mor_sig").and_then(|x| x.as_str()).map(|s| s.to_string()),
             src_name: r.get("src_name").and_then(|x| x.as_str()).map(|s| s.to_string()),
+            mor_app: r.get("mor_app_of").map_or(false, |x| x.is_string()),
         }).collect();
         let rix: HashMap<String, usize> = rels.iter().enumerate().map(|(i, r)| (r.name.clone(), i)).collect();
+        for (i, t) in v["types"].as_array().unwrap().iter().enumerate() {
+            if let Some(m) = t.get("member_of").and_then(|x| x.as_str()) {
+                types[i].member_of = Some(tix[m]);
+                types[i].membership = Some(rix[t["membership"].as_str().unwrap()]);
+            }
+        }
         let mut paths = Vec::new();
         for p in v["paths"].as_array().unwrap() {
             let mut var_names: Vec<String> = Vec::new();
@@ -140,6 +160,24 @@ impl Theory {
         Theory {
             name: v["name"].as_str().unwrap().to_string(), types, rels, paths,
             surjective: v["surjective"].as_bool().unwrap(), meta: v["meta"].clone(), index_fields, elem_fields,
+        }
+    }
+    /// Where does a *new* element that becomes the value of `f(args)` live? `define_f` and `f(..)!` create the
+    /// value of a function whose result type is a member type inside a model element: the receiver for a member
+    /// function, the codomain of the morphism for a morphism application (made defined if necessary).
+    pub fn natural_parent(&self, f: usize) -> NaturalParent {
+        let r = &self.rels[f];
+        let res = *r.arity.last().unwrap();
+        match self.types[res].membership {
+            None => NaturalParent::None,
+            Some(mem) => {
+                if r.mor_app {
+                    let cod = self.rels.iter().position(|c| c.mor_sig.as_deref() == Some("cod") && c.arity[0] == r.arity[0]).expect("cod of the morphism type");
+                    NaturalParent::CodOfArg0 { cod, membership: mem }
+                } else if r.member_of == self.types[res].member_of && r.member_of.is_some() {
+                    NaturalParent::Arg0 { membership: mem }
+                } else { NaturalParent::Unsupported }
+            }
         }
     }
     pub fn rel_by_name(&self, n: &str) -> Option<usize> { self.rels.iter().position(|r| r.name == n) }
